@@ -263,7 +263,9 @@ def tag_documents(rng, quick):
         decl = rng.sample(TAG_NAMES, rng.randint(0, 4))
         for t in decl:
             ann = rng.choice([b"", b" // Title", b' // "q"', " // é".encode(), b" // a\xff"])
-            lines.append(b"TAG " + t + ann + b"\n")
+            # a declared tag may carry a Description: its title stays the annotation, or the NAME when there is none
+            desc = rng.choice([b"", b"", b"  Description\n    All about it\n", b"  Description\n    (\n    x\n    )\n"])
+            lines.append(b"TAG " + t + ann + b"\n" + desc)
         used = set()
         urls = set()
         for _ in range(rng.randint(1, 5)):
@@ -303,10 +305,17 @@ def tag_documents(rng, quick):
                     if (m2, p) in used:
                         continue
                     used.add((m2, p))
-                    lines.append(b"URL " + p + b"\n  " + m + b"\n  (\n    200 any\n  )\n  " + tags + b"  " + m2 + b"\n" +
+                    # half of the time the parenthesised method has an EARLIER sibling (the ')' returns to the URL, not to it)
+                    m0 = rng.choice([x for x in (b"PATCH", b"DELETE") if x != m and (x, p) not in used]) if rng.random() < 0.5 else None
+                    pre0 = b""
+                    if m0 is not None and (m0, p) not in used:
+                        used.add((m0, p))
+                        pre0 = b"  " + m0 + b"\n    200 any\n"
+                    lines.append(b"URL " + p + b"\n" + pre0 + b"  " + m + b"\n  (\n    200 any\n  )\n  " + tags + b"  " + m2 + b"\n" +
                                  (b"    " + tags_m if rng.random() < 0.3 else b"") + b"    200 any\n")
                 else:
-                    lines.append(b"URL " + p + b"\n  Protocol json-rpc-2.0\n  Method m\n  (\n    Params\n      {}\n  )\n  " + tags + b"  Method n\n")
+                    pre0 = b"  Method k\n" if rng.random() < 0.5 else b""
+                    lines.append(b"URL " + p + b"\n  Protocol json-rpc-2.0\n" + pre0 + b"  Method m\n  (\n    Params\n      {}\n  )\n  " + tags + b"  Method n\n")
                     used.update((x, p) for x in (b"GET", b"POST", b"PUT"))
             else:
                 # a URL block with URL-level Tags and a child method, then a method with the same path that is not its child
